@@ -26,7 +26,8 @@ def main():
         sh(["git", "-C", "/repo", "worktree", "remove", "--force", wt])
         sh(["git", "-C", "/repo", "worktree", "add", "--detach", wt, "HEAD"])
         try:
-            demo_path = meta.get("demo_path") or ""
+            demo_path = (meta.get("demo_path") or "").split()[0] if (meta.get("demo_path") or "").split() else ""
+            meta["demo_path"] = demo_path
             demo_files = sorted(f for f in os.listdir(d) if f not in ("patch.diff", "meta.json") and not f.endswith(".txt"))
             ov = []
             if overlay:
@@ -45,10 +46,12 @@ def main():
             place()
             cmd = meta.get("demo_cmd", "")
             cmd = cmd.replace(src, wt)
-            segs = [x.strip() for x in cmd.split("&&")]
+            import re as _re
+            segs = [x.strip() for x in _re.split(r"&&|;", cmd)]
             gos = [x for x in segs if "go test" in x or "go run" in x]
             if gos:
                 cmd = gos[-1]
+            meta["demo_cmd"] = cmd.replace(wt, "<worktree>")
             if overlay and "-overlay" not in cmd:
                 cmd = cmd.replace("go test", "go test " + " ".join(ov), 1)
             rc0, o0 = sh("export GOFLAGS=-mod=mod GOPROXY=off; " + cmd, cwd=wt)
